@@ -178,7 +178,7 @@ PROPS["C18"] = dict(
     level="proof",
     verus=["c18_gate", "c18_stringify", "c16_resources", "c18_args", "c11_cosmetic_parse", "c13_store"],
     labels=["C18.", "C13.redirect_resource.", "C13.kind.", "C16.resources.", "C16.cosmetic.parse.", "C11.cosmetic.parse.safety", "C13.store.", "C13.engine."],
-    witness=["c18_args.rs", "c11_junk.rs", "c18_model.rs"],
+    witness=["c18_args.rs", "c11_junk.rs", "c18_model.rs", "c16_blanks.rs"],
     kani=[KaniSet("src/resources/mod.rs", "c18_perm.rs", [
         Harness("c18_perm_subset", "C18.perm.subset", "C", "all 256x256 pairs; loop over the 8 bit positions fully unwound"),
         Harness("c18_perm_default", "C18.perm.default", "C", "all u8 x u8, loop-free"),
@@ -245,7 +245,7 @@ PROPS["C16"] = dict(
     level="proof",
     verus=["c16_labels", "c16_resources", "c16_store", "c16_engine", "c12_domain", "c11_cosmetic_parse", "c11_locations", "c12_offsets"],
     labels=["C16.", "C18.resources.", "C12.domain.", "C17.cosmetic.parse.", "C18.cosmetic.parse.", "C12.offsets.", "C12.host.", "C12.scheme."],
-    witness=["c16_generic_parse.rs", "c16_scoping.rs", "c18_args.rs", "c16_model.rs", "c16_location_names.rs"],
+    witness=["c16_generic_parse.rs", "c16_scoping.rs", "c18_args.rs", "c16_model.rs", "c16_location_names.rs", "c16_blanks.rs"],
     kani=[],
     trusted=["memchr/memrchr (shims)", "seahash uninterpreted",
              "CosmeticFilter::parse is under contract in unit c11_cosmetic_parse for its frame (markers, +js form, generic restrictions, double negation) with parse_after_sharp_nonscript and validate_css_selector uninterpreted; the location list is under contract in unit c11_locations: the per-entry closure of locations_before_sharp (R7 lift of the closure body: kind and text of every entry) and parse_before_sharp (each of the four lists holds the hashes of the entries of its kind; idna and seahash uninterpreted, sort = a permutation), joined by the R5 materialisation `entries = split(',').filter_map(closure)` which is trusted; add_generic_filter is under contract in unit c17_generic (uninterpreted relation here); the generichide lookup for the page (Engine::url_cosmetic_resources, Blocker::check_generic_hide) is under contract in unit c16_engine with Request::new, NetworkFilterList::check and hostname_cosmetic_resources entering by their contracts",
@@ -310,7 +310,7 @@ PROPS["C11"] = dict(
     verus=["c11_lists", "c11_pattern_block", "c03_option_text", "c11_cosmetic_parse", "c11_locations"],
     labels=["C11.", "C03.option_text.safety"],
     kani=[],
-    witness=["c11_hosts.rs", "c17_keys.rs", "c11_junk.rs"],
+    witness=["c11_hosts.rs", "c17_keys.rs", "c11_junk.rs", "c16_blanks.rs"],
     trusted=["NetworkFilter::parse: the pattern / anchor / hostname extraction block (every string slice of it) and the option-name table are under contract (units c11_pattern_block, c03_option_text, c03_apply_options, c03_parse_mask); the hostname normalisation and parse_hosts_style are under contract in c11_pattern_block with to_lowercase, trim_start_matches(\"www.\"), idna and the INVALID_CHARS regex uninterpreted; CosmeticFilter::parse (unit c11_cosmetic_parse) is under contract for its own slices (the two '#', the marker characters, the `+js(` ... `)` window) with validate_css_selector (assumed: an accepted selector has at least one operator) and parse_scriptlet_args (unit c18_args) entering by contract; the location list (closure of locations_before_sharp, parse_before_sharp) is under contract in unit c11_locations; of parse_after_sharp_nonscript (labelled block + table of function pointers: outside the Verus subset) only its two slice statements are under contract (R7 single-statement lifts), under the branch conditions they sit behind (token found at i, text ends with ')') and the shape of the three action tokens, which IS checked on the function's own constants (R2: byte-string literals spelled as byte arrays)",
              "str::trim, split_whitespace, lines (R5/R6 shims)", "memchr / memrchr (shims)", "UTF-8 facts: an ASCII byte has a character boundary on both sides; both ends of a string are boundaries; ASCII text is encoded byte for character",
              "per-line error isolation in parse_filters_with_metadata (map/filter_map closure pipeline) is not under contract"],
